@@ -112,7 +112,7 @@ static int runPly(uint64_t seed) {
     using namespace SearchConst;
     TranspositionTable tt(1 << 12);
     Rng r{seed * 31 + 7};
-    long long n = 0;
+    long long n = 0, nBusy = 0;
     std::vector<int> scores;
     for (int s = MATE0 - 260; s <= MATE0; s++) { scores.push_back(s); scores.push_back(-s); }
     for (int s = MATE0 / 2 - 3; s <= MATE0 / 2 + 260; s++) { scores.push_back(s); scores.push_back(-s); }
@@ -133,7 +133,27 @@ static int runPly(uint64_t seed) {
         // reading back at a ply where the shifted score leaves the mate band is outside what the search does (p2 such that mate distance < 0)
         n++;
         if (got != want) viol("ply-shift", std::string(crumb) + " got " + std::to_string(got) + " want " + std::to_string(want));
+        // marking the entry busy re-stores it (the search does that at ply p2 for deep nodes): the record must stay the same unit, the
+        // score read back at any ply still shifted by exactly the ply difference to the original store
+        // (domain: real mate distances up to 300 plies and ordinary scores well inside the non-mate band; a score that leaves its band
+        // when shifted is outside what the search produces)
+        const int a = s < 0 ? -s : s;
+        if ((n & 3) == 0 && (a >= MATE0 - 300 || a < MATE0 / 2 - 300) && (!isWinScore(s) || s + p1 - p2 <= MATE0) && (!isLoseScore(s) || -s + p1 - p2 <= MATE0)) {
+            tt.setBusy(e, p2);
+            TranspositionTable::TTEntry b; tt.probe(key, b);
+            if (b.getType() == TType::T_EMPTY) { viol("lost-entry-after-setBusy", crumb); continue; }
+            int p3 = (p2 * 7 + 3) % 129;
+            bool p3ok = !(isWinScore(s) && s + p1 - p3 > MATE0) && !(isLoseScore(s) && -s + p1 - p3 > MATE0);
+            int got2 = b.getScore(p2), got3 = b.getScore(p3);
+            int want3 = isWinScore(s) ? s + p1 - p3 : isLoseScore(s) ? s - p1 + p3 : s;
+            Move m1, m2; e.getMove(m1); b.getMove(m2);
+            nBusy++;
+            if (got2 != want || (p3ok && got3 != want3) || !b.getBusy() || b.getDepth() != e.getDepth() || b.getType() != e.getType() || b.getEvalScore() != e.getEvalScore() || !(m1 == m2))
+                viol("record-changed-by-setBusy", std::string(crumb) + " after setBusy(ply " + std::to_string(p2) + "): score at p2 " + std::to_string(got2) + " want " + std::to_string(want) +
+                     ", at ply " + std::to_string(p3) + " " + std::to_string(got3) + " want " + std::to_string(want3));
+        }
     }
+    stat["ply_setbusy_cases"] = nBusy;
     stat["ply_cases"] = n;
     finish();
     return 0;
@@ -218,6 +238,15 @@ static int runTbRegion(uint64_t seed, long long nops) {
         for (auto& pr : probes) { int sc = 0; if (!tt.probeDTM(pr.first, 0, sc) || sc != pr.second) { viol("tablebase-probe-changed", std::string(crumb) + " " + TextIO::toFEN(pr.first)); break; } }
         stat["tbregion_rounds"]++; stat["tbregion_ops"] += nops; stat["tbregion_dtm_reprobes"] += (long long)probes.size();
         if (round == 0) tt.clear(); else tt.reSize((round + 1) * 8 * 65536);
+        // After clear / reSize the table is either gone (probeDTM: not found) or, if the table still answers, its bytes must still be
+        // protected from ordinary stores: same answers before and after more hash traffic.
+        for (int phase = 0; phase < 2; phase++) {
+            long long answered = 0;
+            for (auto& pr : probes) { int sc = 0; if (tt.probeDTM(pr.first, 0, sc)) { answered++; if (sc != pr.second) { viol("tablebase-answers-wrong-after-clear-or-resize", std::string(crumb) + (round == 0 ? " clear " : " reSize ") + TextIO::toFEN(pr.first) + " was " + std::to_string(pr.second) + " now " + std::to_string(sc)); break; } } }
+            stat["tbregion_answers_after_clear_or_resize"] += answered;
+            if (phase == 0) for (long long i = 0; i < nops / 4; i++) { Move m(Square(r.below(64)), Square(r.below(64)), 0); m.setScore(r.below(2000) - 1000); tt.insert(r.next(), m, 1 + r.below(3), r.below(30), r.below(60), r.below(500) - 250, false); }
+        }
+        stat["tbregion_clear_or_resize_checks"]++;
     }
     finish();
     return 0;
